@@ -103,3 +103,33 @@ Proof.
   exists tail. split; [exact Ht|]. rewrite (script_is_expected s Hs).
   rewrite (map_strip_cr_id _ (split_lines_no_cr (S (length s)) s Hcr)), Hx. reflexivity.
 Qed.
+
+(** ** a query at the end of the input, with or without a semicolon after it *)
+From PQL Require Import Proofs.SplitFacts.
+
+(** compiling the last piece as an unterminated query is the same as handling it as a terminated
+    statement and finding nothing after it *)
+Theorem last_query_either_way st p : is_let_piece p = false -> scan p <> [] ->
+  finish (set_pending st p) false = finish (set_pending (do_piece st p) []) false.
+Proof.
+  intros Hl Hs. unfold finish, set_pending, do_piece. cbn [pending prelude out failed nlogged]. rewrite Hl.
+  destruct (scan p) as [|t r] eqn:E; [congruence|].
+  destruct (compile_ok (prelude st ++ p)) as [sql|]; cbn [pending prelude out failed nlogged]; reflexivity.
+Qed.
+
+Lemma removelast_snoc {A} (l : list A) x : removelast (l ++ [x]) = l.
+Proof. apply removelast_last. Qed.
+
+(** on scripts: when the appended semicolon is a token of its own (it is not swallowed by an
+    unterminated comment, string or quoted name), a final query gives the same output and the same
+    exit status with and without it *)
+Theorem trailing_semicolon s :
+  split_statements (s ++ [59%N]) = split_statements s ++ [[]] ->
+  is_let_piece (last (split_statements s) []) = false -> scan (last (split_statements s) []) <> [] ->
+  expected (s ++ [59%N]) = expected s.
+Proof.
+  intros Hsp Hl Hs. unfold expected, state_of_text. rewrite Hsp, removelast_snoc, last_last.
+  pose proof (split_at_semis_nonempty s 0 (scan s)) as Hne. fold (split_statements s) in Hne.
+  rewrite (app_removelast_last [] Hne) at 1. rewrite fold_left_app. cbn [fold_left].
+  symmetry. apply last_query_either_way; assumption.
+Qed.
